@@ -22,7 +22,7 @@ var Dirs = func() []string {
 	}
 	return []string{"d", "d2"}
 }()
-var NamesAB = []string{"f", "g"}
+var NamesAB = []string{"f", "f.tmp"} // the second name is what a careless implementation would call its temporary file for the first
 
 func Big(n int, seed byte) []byte {
 	b := make([]byte, n)
